@@ -231,12 +231,14 @@ class XPathContext:
             elif isinstance(self.item, XPathNode):
                 self.item.clear_types()
         elif hasattr(schema, 'is_assertion_based'):
-            if self.root is not None:
-                self.root.clear_types()
-                self.root.apply_schema(schema)
-            elif isinstance(self.item, XPathNode):
-                self.item.clear_types()
-                self.item.apply_schema(schema)
+            node = self.root if self.root is not None else self.item
+            if isinstance(node, XPathNode):
+                # Don't clear the types that apply_schema() is not going to set again:
+                # it skips a not assertion-based schema that is already applied to the tree.
+                tree = getattr(node, 'tree', None)
+                if tree is None or tree.schema is not schema or schema.is_assertion_based():
+                    node.clear_types()
+                node.apply_schema(schema)
         else:
             msg = f"{schema!r} is not an instance of AbstractSchemaProxy"
             raise ElementPathTypeError(msg)
